@@ -4072,8 +4072,6 @@ class FST:
                 non_load_names.difference_update(syms_walrus)
 
                 ret['free'] = {n: fs for n, fs in syms_load.items() if n not in non_load_names}
-                ret['load'] = {n: ffs for n, fs in syms_load.items()
-                               if (ffs := [f for f in fs if f.a.ctx.__class__ is Load])}  # filter out store nodes which came from walruses
 
             else:
                 non_load_names.update(syms_del)
@@ -4081,6 +4079,10 @@ class FST:
                 non_load_names.update(syms_global)
 
                 ret['free'] = {n: fs for n, fs in syms_load.items() if n not in non_load_names}
+
+        if full_and_comp:  # whether "free" was asked for or not
+            ret['load'] = {n: ffs for n, fs in syms_load.items()
+                           if (ffs := [f for f in fs if f.a.ctx.__class__ is Load])}  # filter out store nodes which came from walruses
 
         return ret
 
